@@ -97,4 +97,30 @@ theorem rat_of_den_one (q : Rat) (h : q.den = 1) : ((q.num : Int) : Rat) = q := 
   · simp
   · simp [h]
 
+/-- on finite values the six operators mean what their symbols say (exact comparison of int and float) -/
+theorem cmp_fin (op : Op) (a b : Rat) :
+    cmp op (.fin a) (.fin b) = true ↔
+      (match op with
+        | .gt => b < a
+        | .ge => b ≤ a
+        | .lt => a < b
+        | .le => a ≤ b
+        | .eq => a = b
+        | .ne => a ≠ b) := by
+  cases op <;> simp only [cmp, XNum.lt, XNum.eq, Bool.or_eq_true, decide_eq_true_eq, Bool.not_eq_true',
+    decide_eq_false_iff_not]
+  · rw [Rat.le_iff_lt_or_eq]
+    constructor
+    · rintro (h | h)
+      · exact Or.inl h
+      · exact Or.inr h.symm
+    · rintro (h | h)
+      · exact Or.inl h
+      · exact Or.inr h.symm
+  · rw [Rat.le_iff_lt_or_eq]
+
+/-- `nan` satisfies only `!=`; it is never accepted by a comparison that orders or equates -/
+theorem cmp_nan (op : Op) (y : XNum) : cmp op .nan y = true ↔ op = .ne := by
+  cases op <;> cases y <;> simp [cmp, XNum.lt, XNum.eq]
+
 end Jap.Typing
